@@ -107,7 +107,8 @@ type Node struct {
 	conns        []*conn
 	recv         []Recv
 	lastRecv     time.Time
-	scriptCloses int // connections closed by the CloseAt script
+	refuse       bool // refuse every new connection (RefuseNew)
+	scriptCloses int  // connections closed by the CloseAt script
 	live         int
 	accepted     int
 	refused      int
@@ -202,7 +203,7 @@ func (n *Node) acceptLoop() {
 			return
 		}
 		n.mu.Lock()
-		if n.done || (n.Spec.MaxConns > 0 && n.live >= n.Spec.MaxConns) {
+		if n.done || n.refuse || (n.Spec.MaxConns > 0 && n.live >= n.Spec.MaxConns) {
 			n.refused++
 			n.mu.Unlock()
 			_ = c.Close()
@@ -535,6 +536,13 @@ func (n *Node) admittedBetweenOld(from, to time.Time, minLife time.Duration) (ad
 		}
 	}
 	return admitted, attempts
+}
+
+// RefuseNew makes the node refuse every further connection attempt (it has gone away for good).
+func (n *Node) RefuseNew() {
+	n.mu.Lock()
+	n.refuse = true
+	n.mu.Unlock()
 }
 
 // Redeliveries counts replies that carried an offending header this node had delivered before.
